@@ -159,21 +159,26 @@ var errIgnore = fmt.Errorf("ignore")
 // NOTE: nodes is modified in place, so be sure to send unique copy in
 // containsMarker reports whether v is, or contains at any depth, a variable or ignore placeholder.
 func containsMarker(v types.Value) bool {
+	return containsValue(v, func(x types.Value) bool { return IsVariable(x) || IsIgnore(x) })
+}
+
+// containsValue reports whether v is, or contains at any depth, a value for which is holds.
+func containsValue(v types.Value, is func(types.Value) bool) bool {
 	switch t := v.(type) {
 	case types.Record:
 		for vv := range t.Values() {
-			if containsMarker(vv) {
+			if containsValue(vv, is) {
 				return true
 			}
 		}
 	case types.Set:
 		for vv := range t.All() {
-			if containsMarker(vv) {
+			if containsValue(vv, is) {
 				return true
 			}
 		}
 	}
-	return IsVariable(v) || IsIgnore(v)
+	return is(v)
 }
 
 func tryPartial(env Env, nodes []ast.IsNode,
@@ -205,6 +210,10 @@ func tryPartialOperands(env Env, nodes []ast.IsNode,
 		}
 		if v, vok := n.(ast.NodeValue); vok && containsMarker(v.Value) {
 			if !projection {
+				if containsValue(v.Value, IsIgnore) {
+					// the operand as a whole depends on an ignored value
+					return nil, errIgnore
+				}
 				ok = false
 			} else if ok {
 				values = append(values, v.Value)
